@@ -883,6 +883,28 @@ async fn run_async(case: &Case) -> CaseReport {
         }
     }
 
+    // ---- transport failures that were not scripted (the scripted provider is harness code: under
+    // extreme machine load its 10 s read timeout or a reset can fail a request). Such a run says
+    // nothing about the loop: inconclusive, never a violation.
+    let transport_error_frames = frames
+        .iter()
+        .filter(|f| {
+            f["type"] == "provider_event"
+                && f.get("errors").and_then(|e| e.as_array()).map(|a| !a.is_empty()).unwrap_or(false)
+                && f.get("raw").map(|r| r.is_null()).unwrap_or(true)
+                && f.get("data").map(|d| d.is_null()).unwrap_or(true)
+        })
+        .count();
+    let scripted_http_error_reached = case
+        .turns
+        .iter()
+        .enumerate()
+        .any(|(t, turn)| turn.http_error.is_some() && bodies.len() == t + 1 && end_reason == "provider_error");
+    if transport_error_frames > usize::from(scripted_http_error_reached) {
+        rep.inconclusive("unscripted_transport_error");
+        return rep;
+    }
+
     // ---- G1: every body the provider received validates against the Open Responses schema
     for (i, b) in bodies.iter().enumerate() {
         if let Err(errs) = rip_openresponses::validate_create_response_body(b) {
@@ -1365,6 +1387,9 @@ fn finish_classes(
     rep.count("tool_started_frames", started.len() as u64);
     rep.count("calls_processed_model", processed.len() as u64);
     rep.class(format!("end:{end_reason}"));
+    if std::env::var_os("C16_DEBUG").is_some() {
+        eprintln!("[c16] classes={:?} counters={:?} fails={:?}", rep.classes, rep.counters, rep.fails.iter().map(|f| f.sig.clone()).collect::<Vec<_>>());
+    }
     let multi = max_calls >= 2 || case.turns.iter().filter(|t| !t.items.is_empty()).count() >= 2 || case.turns.len() >= 2;
     rep.nontrivial = multi || barred_processed > 0 || dup_same_turn || dup_cross_turn || has_dup_done;
 }
